@@ -84,5 +84,50 @@ PROPS["C16"] = {
     "assumptions": ["identity: no line of the source parses as a directive; escape: first line without leading blank, no trailing blanks, no CR/LF inside lines"],
 }
 
+COORD_MODELLED = ["threadpool 1.8 (FIFO job queue, n workers) and std mpsc (no loss) - the model delivers any in-flight result next, the executable simulator the first n in spawn order",
+                  "what a pass computes is abstract in the theorems (World.result: ok / hasDeps / err; render); M5 ties passes to the code",
+                  "directory scan tasks are not part of the proved coordinator model (inputs are files); scanning is covered by the whole-run model and M5/M8",
+                  "real preemption between file-system calls of two running tasks is not modelled (the invariants show concurrently running final passes touch different outputs)"]
+COORD_TB = ["M6 trace correspondence: the real coordinator under the schedule controller (verif hooks) vs the Lean coordinator model on every explored delivery order: enabled set, tasks spawned by each delivery, verdict",
+            "direct oracles on the real outputs of every explored run (bytes vs sequential processing, verdict, exactly-once starts, marker order)"]
+
+PROPS["C02"] = {
+    "jobs": [{"cmd": "c02", "shards": 16}],
+    "cli": False, "trusted_base": COORD_TB, "modelled": COORD_MODELLED,
+    "level_text": "Lean theorems over the coordinator + worker model, for every dependency graph, every interleaving of begin/finish/deliver steps, every thread count and every initial content of the outputs: a final pass is in flight only after all its dependencies finished; finished files are never touched again; at a successful exit every output is the complete sequential value, the unique solution of out f = render f out. The real coordinator is driven through ALL delivery orders of every acyclic digraph on <= 3 files (4 in thorough) with stale outputs on disk, and its trace and bytes are compared on every run.",
+    "design_ref": "5 C02, 4.7",
+    "level_note": "Partial: interleavings of individual file-system calls below task granularity are not modelled; the schedule controller serialises deliveries (it explores all delivery orders, not all preemption points).",
+    "technique": "Lean 4 proof (inductive invariant + refinement to sequential build) + exhaustive schedule exploration as correspondence",
+    "assumptions": ["commands terminate; a pass reads only its declared dependencies (RenderLocal)"],
+}
+PROPS["C03"] = {
+    "jobs": [{"cmd": "c03", "shards": 16}],
+    "cli": False, "trusted_base": COORD_TB, "modelled": COORD_MODELLED,
+    "level_text": "Lean theorems: done == total iff nothing is in flight; no deadlock; at most 2|U| deliveries over any finite universe (termination under every schedule, cyclic or not); success implies every seen file finished; finished list, seen list and pool are duplicate-free and a finished file never gets a task again (exactly once); the unwrap in notify_finish cannot fail. All delivery orders of all digraphs (cyclic included) on <= 3 files with duplicate inputs are explored on the real coordinator; task starts and command markers are counted.",
+    "design_ref": "5 C03, 4.7",
+    "level_note": "The bound is stated relative to the number of files ever seen; directory scanning (bounded by the F4 repair) and path aliases are exercised end to end (C11 / whole-run model), not in the proved coordinator model.",
+    "technique": "Lean 4 proof (accounting invariant + step-counting termination) + exhaustive schedule exploration as correspondence",
+    "assumptions": ["commands terminate", "no worker thread panics (C18)"],
+}
+PROPS["C05"] = {
+    "jobs": [{"cmd": "c05", "shards": 16}],
+    "cli": False, "trusted_base": COORD_TB, "modelled": COORD_MODELLED,
+    "level_text": "Lean theorems: at quiescence every still-waiting file reaches a dependency cycle (so acyclic projects never get the circular failure), finished files cannot reach a cycle (so a required cyclic file never yields success), every seen file that cannot reach a cycle is finished with the complete sequential output, and the delivery bound does not need acyclicity (never hangs). Explored on the real coordinator over all digraphs with self-loops on <= 3 files, all delivery orders.",
+    "design_ref": "5 C05, 4.7",
+    "level_note": "As C02/C03.",
+    "technique": "Lean 4 proof (finite closed set reaches a cycle; topological order of the finished list) + exhaustive schedule exploration",
+    "assumptions": ["commands terminate"],
+}
+PROPS["C04"] = {
+    "jobs": [{"cmd": "c04s", "shards": 16}, {"cmd": "c04f", "shards": 24}],
+    "cli": True, "trusted_base": COORD_TB + ["fault enumeration with real OS faults (directory at the output path, /dev/full, RLIMIT_FSIZE, missing directories, invalid UTF-8) on the library and the CLI binary"],
+    "modelled": COORD_MODELLED + ["ENOSPC/EFBIG are produced by the OS, not modelled: checked by the direct oracle only"],
+    "level_text": "Lean theorems: a delivered error ends the run with a failure whatever else is in flight; a failing pass yields an error result wherever the file sits; a file whose final pass fails is never in the finished set of any reachable state, hence no state that reports success contains it. On the implementation: every fault kind x position (root/middle/leaf/sibling) x mode, and one failing file per graph under all delivery orders; CLI exit status compared with the library verdict.",
+    "design_ref": "5 C04",
+    "level_note": "Write faults (disk full, size limit) are exercised with real OS faults, not proved; the sink model covers create failures and verify mismatches.",
+    "technique": "Lean 4 proof (failing files never finish) + fault enumeration + schedule exploration as correspondence",
+    "assumptions": ["faults are deterministic for the duration of a run"],
+}
+
 # properties not (yet) claimed, with the reason shown in MANIFEST.not_applicable
 PENDING = {}
